@@ -31,7 +31,7 @@ SYMS = ["E", "Edup", "Emut", "D", "P", "L", "Mup", "Mdown", "T"]
 RULE = ("(b) all sequences to length 6 (quick) / 7 (thorough) over the 9-symbol alphabet {enqueue fresh, enqueue duplicate of an "
         "earlier accepted frame, enqueue then mutate the passed object, dequeue, peek, len, max_queue_size raise, max_queue_size "
         "lower below the current length, fragmentation toggle} against a reference queue, seeded sequences to length 30 beyond (these also with messages "
-        "arriving as FIRST + LAST fragment frames, fresh or repeated); "
+        "arriving as FIRST + LAST fragment frames, fresh or repeated, and with enqueue() calls whose private copy fails with an injected MemoryError); "
         "(a) seeded in-situ runs through a real node's radio and update() with fresh/duplicated arrivals, dequeue points, "
         "capacity changes and toggles. Non-trivial: >= 2 frames accepted; distinct = distinct operation sequences")
 ASSUMPTIONS = ["the swept alphabet uses non-fragment message types; fragment frames (complete FIRST + LAST pairs only, see C06 for everything else) appear in the seeded histories",
@@ -72,7 +72,9 @@ def make(i, base_seed, tier):
     if i < n + nrand:
         # beyond the sweep's alphabet: "Efrag" = a message arriving as FIRST + LAST fragment frames (fresh, or a repeat of an
         # earlier accepted one) - on a FrameQueueFrag the LAST fragment's enqueue() reports whether the re-assembled frame was stored
-        return {"seed": seed, "kind": "direct", "ops": [rng.choice(SYMS + ["E", "E", "D", "Efrag", "Efrag"]) for _ in range(rng.randint(7, 30))], "frag": rng.random() < 0.5}
+        # "Efail" = the allocation fault: serialising the caller's frame fails (MemoryError on a small MCU) while enqueue() makes its
+        # private copy - the call may raise or refuse, but nothing may have been stored
+        return {"seed": seed, "kind": "direct", "ops": [rng.choice(SYMS + ["E", "E", "D", "Efrag", "Efrag", "Efail"]) for _ in range(rng.randint(7, 30))], "frag": rng.random() < 0.5}
     ops = []
     for _ in range(rng.randint(4, 25)):
         k = rng.random()
@@ -103,6 +105,13 @@ class RefQueue:
             return False
         self.q.append((key, content))
         return True
+
+
+class _FailingFrame(RF24NetworkFrame):
+    """a frame whose serialisation runs out of memory (fault injection at the allocation enqueue() needs for its private copy)"""
+
+    def pack(self):
+        raise MemoryError("memory allocation failed (injected)")
 
 
 def _content(f):
@@ -148,6 +157,18 @@ def _direct(scn, res):
                 if isinstance(f.message, bytearray) and f.message:
                     f.message[0] ^= 0xFF
                 f.message = b"overwritten"
+        elif op == "Efail":
+            fid += 1
+            h = RF24NetworkHeader(0, rng.choice([0, 1, 65, 127]))
+            h.from_node, h.frame_id = rng.choice([0o1, 0o2, 0o13]), (0x7000 + fid) & 0xFFFF
+            f = _FailingFrame(h, bytes(rng.getrandbits(8) for _ in range(rng.randint(0, 24))))
+            try:
+                got = q.enqueue(f)
+            except MemoryError:
+                got = False
+            if got is not False and len(ref.q) < ref.cap:
+                res.add("bounded", {"kind": "enqueue_return", "why": "copy_failed"}, "enqueue() returned %r for a frame whose copy could not be made (op %d of %r)" % (got, k, scn["ops"]))
+                return
         elif op == "Efrag":
             if not frag:
                 continue
